@@ -103,7 +103,30 @@ func newModAnalysis(w *World, cs *Contracts) *ModAnalysis {
 			break
 		}
 	}
+	// ghosts that abstract real state: a function writing the tracked state modifies the ghost
+	for _, f := range fns {
+		ms := ma.fn[f]
+		for g, pats := range cs.Tracks {
+			if ms.Fams["G:"+g] {
+				continue
+			}
+			if ms.Top || famsMatch(ms, pats) {
+				ms.add("G:" + g)
+			}
+		}
+	}
 	return ma
+}
+
+func famsMatch(ms *ModSet, pats []string) bool {
+	for f := range ms.Fams {
+		for _, p := range pats {
+			if strings.HasPrefix(f, "F:"+sanitize(p)+".") || f == "M:"+p || f == "S:"+p {
+				return true
+			}
+		}
+	}
+	return false
 }
 
 // scanLocalFns records locals that hold exactly one closure value.
@@ -157,6 +180,10 @@ func (ma *ModAnalysis) addrFam(addr ssa.Value, ms *ModSet) bool {
 			ms.add(structFam(ma.e, st, a.Field))
 		}
 	case *ssa.IndexAddr:
+		if al, ok := a.X.(*ssa.Alloc); ok && ma.summary {
+			_ = al
+			return false
+		}
 		var elem types.Type
 		switch t := a.X.Type().Underlying().(type) {
 		case *types.Slice:
@@ -173,6 +200,11 @@ func (ma *ModAnalysis) addrFam(addr ssa.Value, ms *ModSet) bool {
 			ms.add("S:" + typeStr(elem))
 		}
 	case *ssa.Alloc:
+		if ma.summary {
+			// a store directly into a variable/object allocated by this very function is not a
+			// write to state that existed before the call
+			return false
+		}
 		t := a.Type().Underlying().(*types.Pointer).Elem()
 		if isObjStruct(t) {
 			// fresh object: not a pre-existing location; still record fields for loop havoc
